@@ -87,7 +87,7 @@ def param_grid(tier):
 
 BOUNDS = {
     "quick": {"max_len": 4, "params": len(param_grid("quick"))},
-    "thorough": {"max_len": 5, "params": len(param_grid("thorough"))},
+    "thorough": {"max_len": 5, "params_len<=4": len(param_grid("thorough")), "params_len5": len(param_grid("quick"))},
 }
 
 META = {
@@ -433,11 +433,14 @@ def _seqs(shard, maxlen):
 
 def run_shard(shard, tier, st):
     maxlen = BOUNDS[tier]["max_len"]
-    grid = param_grid(tier)
+    full = param_grid(tier)
+    quick = param_grid("quick")
     first = True
     for seq in _seqs(shard, maxlen):
         specs = [POOL[i] for i in seq]
         st.states += 1
+        # thorough: sequences of the added length 5 get the quick grid, shorter ones the full thorough grid
+        grid = quick if len(seq) > BOUNDS["quick"]["max_len"] else full
         for p in grid:
             check_case(specs, p, st)
         if first and shard in (("short",), ("pre", 0, 1), ("pre", 10, 0), ("pre", 3, 9)):
